@@ -590,6 +590,13 @@ def _hyp_settings(n, steps=None, tier='quick'):
 def _run_shard(args):
     global RUN
     modname, tier, seed, shard, nshards, shrink_limit = args
+    cov = None
+    if os.environ.get('VERIF_COVERAGE'):
+        # development aid (tools/coverage.sh): which lines of phylib do the generated cases run?
+        import coverage
+        cov = coverage.Coverage(data_file=os.environ['VERIF_COVERAGE'], data_suffix=True,
+                                source=[str(env.REPO / 'phylib')])
+        cov.start()
     try:
         env.import_phylib()
         mod = importlib.import_module(modname)
@@ -656,6 +663,9 @@ def _run_shard(args):
                     nt=np.array([], dtype=np.uint64), labels={}, samples_nt=[], samples_label={},
                     failures={}, n_failures=0, per_driver=[])
     finally:
+        if cov is not None:
+            cov.stop()
+            cov.save()
         env.cleanup_root()
 
 
